@@ -28,11 +28,13 @@ VERDICT_FIELDS = ["wf", "a_model_agrees", "b_structure_layout_rules_and_real_ora
 VT = ["f32", "vec2<f32>", "vec3<f32>", "vec4<f32>", "i32", "vec2<i32>", "vec3<i32>", "vec4<i32>", "u32", "vec2<u32>", "vec3<u32>",
       "vec4<u32>", "f64", "vec2<f64>", "vec3<f64>", "vec4<f64>"]
 NAMES = ["VertexInput", "InstanceInput", "Extra", "vertex_data", "PerVertex", "Geo", "Skin", "A", "B2"]
+# names that differ only in a numeric suffix / its leading zeros / its size: distinct structs, each with its own table
+NUMBERED = ["Vertex", "Vertex0", "Vertex1", "Vertex01", "Stream1", "Stream01", "Input2", "Input10", "Uv0", "Uv18446744073709551616", "Vertex00"]
 
 
 def program(rng):
     nstruct = rng.randint(1, 4)
-    names = rng.sample(NAMES, nstruct)
+    names = rng.sample(NAMES if rng.random() < 0.75 else NUMBERED, nstruct)
     lines, structs = [], {}
     loc = 0
     nbuf = -1
@@ -82,6 +84,9 @@ def program(rng):
         lines.append("@vertex fn vs%d(%s) -> @builtin(position) vec4<f32> { return vec4<f32>(0.0); }" % (e, ", ".join(params)))
     if rng.random() < 0.3:
         lines.append("@fragment fn fs() -> @location(0) vec4<f32> { return vec4<f32>(1.0); }")
+    if rng.random() < 0.3:
+        # simulate + draw in one file: a compute entry point next to the vertex entries
+        lines.insert(rng.randrange(len(lines) + 1), "@compute @workgroup_size(64) fn simulate() { }")
     return "\n".join(lines) + "\n"
 
 
